@@ -29,6 +29,7 @@ import (
 	"os"
 	"sort"
 	"testing"
+	"time"
 
 	"github.com/aergoio/aergo-lib/db"
 	"github.com/aergoio/aergo/v2/chain"
@@ -75,6 +76,8 @@ type c16Case struct {
 	Catchup   uint64          `json:"catchup"`
 	Cap       int             `json:"cap"`
 	POps      [][]interface{} `json:"pops"`
+	Health    []int64         `json:"health"`
+	COps      [][]interface{} `json:"cops"`
 }
 
 const unknownID = 7777777
@@ -852,12 +855,114 @@ func runProp(c *c16Case) interface{} {
 			default:
 				code = 3
 			}
+		case "timeout":
+			// the caller of ChangeMembership waiting for the reply gives up (recvConfChangeReply, time-out branch)
+			old := MaxConfChangeTimeOut
+			MaxConfChangeTimeOut = time.Millisecond
+			_, err := cl.recvConfChangeReply(make(chan *consensus.ConfChangeReply))
+			MaxConfChangeTimeOut = old
+			code = 99
+			if err == ErrConChangeTimeOut {
+				code = 4
+			}
 		}
 		saved := uint64(0)
 		if cl.savedChange != nil {
 			saved = cl.savedChange.Cc.ID
 		}
 		steps = append(steps, st{code, saved, len(cl.confChangeC)})
+	}
+	return map[string]interface{}{"steps": steps}
+}
+
+// kind "cm": the real Cluster.ChangeMembership path (makeProposal, isEnableChangeMembership against a faked raft
+// status, submitProposal, recvConfChangeReply) with the raft loop played by the case: proposals accepted go to the
+// channel (= the raft log, in order) and are applied by "apply" ops (validateChangeMembership, removeMember,
+// AfterConfChange) — possibly after the requester timed out.
+func runCM(c *c16Case) interface{} {
+	old := MaxConfChangeTimeOut
+	MaxConfChangeTimeOut = 5 * time.Millisecond
+	defer func() { MaxConfChangeTimeOut = old }()
+	MaxSlowNodeGap = 10
+	cl := mkCluster(nil, nil)
+	cl.identity.ID = 1
+	for i := range c.Health {
+		m := mkMemberP([]int64{int64(i + 1), int64(i + 1), int64(i + 1), int64(i + 1)})
+		cl.appliedMembers.add(m)
+		cl.members.add(m)
+	}
+	cl.confChangeC = make(chan *consensus.ConfChangePropose, 16)
+	node := &fakeRaftNode{}
+	setStatus := func() {
+		st := raftlib.Status{ID: 1, Progress: map[uint64]raftlib.Progress{}}
+		for id := range cl.appliedMembers.MapByID {
+			ps := raftlib.ProgressStateReplicate
+			if c.Health[id-1] == 0 {
+				ps = raftlib.ProgressStateProbe
+			}
+			st.Progress[id] = raftlib.Progress{State: ps}
+		}
+		node.st = st
+	}
+	setStatus()
+	rs := &raftServer{cluster: cl, node: node, raftStorage: raftlib.NewMemoryStorage()}
+	rs.leaderStatus.IsLeader = true
+	rs.leaderStatus.Leader = 1
+	cl.rs = rs
+	type st struct {
+		Code    int64    `json:"code"`
+		Saved   uint64   `json:"saved"`
+		Chan    int      `json:"chan"`
+		Applied []uint64 `json:"applied"`
+	}
+	var steps []st
+	reqID := uint64(100)
+	for _, op := range c.COps {
+		code := int64(0)
+		switch op[0].(string) {
+		case "remove":
+			reqID++
+			req := &types.MembershipChange{Type: types.MembershipChangeType_REMOVE_MEMBER, RequestID: reqID, Attr: &types.MemberAttr{ID: u(op[1])}}
+			_, err := cl.ChangeMembership(req, u(op[2]) == 0)
+			switch err {
+			case nil:
+			case ErrPendingConfChange:
+				code = 1
+			case ErrConfChangeChannelBusy:
+				code = 2
+			case ErrConChangeTimeOut:
+				code = 4 // accepted, handed to raft, the requester gave up waiting
+			case ErrRemoveHealthyNode, ErrUnhealtyNodeExist:
+				code = 5
+			case ErrCCNoMemberToRemove, ErrCCAlreadyRemoved, consensus.ErrInvalidMemberID:
+				code = 6
+			default:
+				code = 99
+			}
+		case "apply":
+			select {
+			case p := <-cl.confChangeC:
+				m := consensus.NewMember("", "", types.PeerID(""), nil, 0)
+				m.SetMemberID(p.Cc.NodeID)
+				err := cl.validateChangeMembership(p.Cc, m, true)
+				if err == nil {
+					if e := cl.removeMember(m); e != nil {
+						code = 98
+					}
+					setStatus()
+				} else {
+					code = 7 // the committed change is skipped at apply time
+				}
+				cl.AfterConfChange(p.Cc, m, err)
+			default:
+				code = 3
+			}
+		}
+		saved := uint64(0)
+		if cl.savedChange != nil {
+			saved = cl.savedChange.Cc.ID
+		}
+		steps = append(steps, st{code, saved, len(cl.confChangeC), sortedIDs(cl.appliedMembers.MapByID)})
 	}
 	return map[string]interface{}{"steps": steps}
 }
@@ -952,6 +1057,8 @@ func TestVerifC16Engine(t *testing.T) {
 			res = runTs(t, &c)
 		case "prop":
 			res = runProp(&c)
+		case "cm":
+			res = runCM(&c)
 		}
 		if err := enc.Encode(res); err != nil {
 			t.Fatal(err)
